@@ -131,7 +131,7 @@ func (p *Program) InitOrder(allowed func(string) bool) []*ssa.Package {
 		for _, im := range imps {
 			visit(im)
 		}
-		if allowed(tp.Path()) {
+		if allowed(tp.Path()) && (strings.HasPrefix(tp.Path(), Module) || strings.HasPrefix(tp.Path(), "github.com/vx-labs/")) {
 			if sp := p.Prog.Package(tp); sp != nil {
 				order = append(order, sp)
 			}
